@@ -5,7 +5,9 @@ Statement-level reference: spec/hdlc_wire.py (frame(dlci, payload) = 7E . esc(dl
 {7E, 7D, 00}) and a reference of the queueing discipline written here from the statement: messages wait per DLCI in FIFO order; whenever the
 transmitter starts a new frame it takes the head of the lowest-numbered non-empty DLCI; a frame in transmission is finished first.
 Judged (the real sercomm.c #included, bundled libosmocore msgb.c/talloc.c, ASan+UBSan):
-  * the octets returned by sercomm_drv_pull() are exactly the concatenation of the frames in that order (so no unescaped 7E / 00 inside a frame);
+  * the octets returned by sercomm_drv_pull() follow the wire grammar of the statement (spec.hdlc_wire.scan_transmitter_output: frames 7E body 7E,
+    inside a body no unescaped 7E / 00, 7D x stands for x xor 20 with x neither 7E nor 00 - WHICH further octets an implementation escapes is its
+    own choice) and decode to dlci . 03 . payload of the queued messages in the order of the queueing discipline;
   * feeding them octet by octet into sercomm_drv_rx_char() delivers every message with a payload shorter than the receive buffer to the handler of
     its DLCI, with identical DLCI and payload, exactly once, in wire order - for all 256 octet values and DLCIs 0..127 (128 is the echo DLCI);
   * flag-free noise between frames changes nothing;
@@ -53,6 +55,7 @@ static void pull(long max)
 {
 	uint8_t ch; long k = 0;
 	while (k < max && nwire < (int)sizeof(wire) && sercomm_drv_pull(&ch)) { wire[nwire++] = ch; k++; sercomm_drv_rx_char(ch); }
+	printf("pulled %%ld\n", k);
 }
 int main(int argc, char **argv)
 {
@@ -104,55 +107,97 @@ def flags(mode):
 
 
 class Ref:
-    """reference of the statement: per-DLCI FIFO queues, lowest DLCI first, a started frame is finished; the wire and the in-sync receiver"""
+    """reference of the statement: per-DLCI FIFO queues, lowest DLCI first, a started frame is finished.  It FOLLOWS the observed wire (the
+    octets each pull operation returned): at every opening flag the message whose frame must start is the head of the lowest non-empty
+    DLCI; the body is checked against the wire grammar and must decode to dlci . 03 . payload; when a pull returned fewer octets than asked
+    for, nothing may be left to send."""
 
     def __init__(self, rx):
         self.rx = rx
         self.q = {}
-        self.cur = []            # octets of the frame in transmission still to be pulled
-        self.wire = []
         self.frames = []         # (dlci, payload) in the order their frames start
+        self.in_frame = False
+        self.esc = False
+        self.body = []
+        self.error = None
+        self.pos = 0
 
     def send(self, d, p):
         self.q.setdefault(d, []).append(list(p))
 
-    def pull(self, k):
-        n = 0
-        while n < k:
-            if not self.cur:
-                ds = sorted(d for d, l in self.q.items() if l)
-                if not ds:
-                    return
-                p = self.q[ds[0]].pop(0)
-                self.frames.append((ds[0], p))
-                self.cur = W.frame(ds[0], p)
-            take = min(k - n, len(self.cur))
-            self.wire += self.cur[:take]
-            self.cur = self.cur[take:]
-            n += take
+    def fail(self, what):
+        if self.error is None:
+            self.error = (self.pos, what)
+
+    def octet(self, b):
+        if not self.in_frame:
+            if b != W.FLAG:
+                return self.fail("octet %02x outside a frame (expected an opening flag)" % b)
+            ds = sorted(d for d, l in self.q.items() if l)
+            if not ds:
+                return self.fail("a frame starts although no message is queued")
+            self.frames.append((ds[0], self.q[ds[0]].pop(0)))
+            self.in_frame, self.esc, self.body = True, False, []
+        elif self.esc:
+            if b in (W.FLAG, 0):
+                return self.fail("octet %02x after the escape marker" % b)
+            self.body.append(b ^ 0x20)
+            self.esc = False
+        elif b == W.FLAG:
+            d, p = self.frames[-1]
+            if self.body != [d, W.CTRL_UI] + p:
+                k = next((i for i in range(min(len(self.body), len(p) + 2)) if self.body[i] != ([d, W.CTRL_UI] + p)[i]), min(len(self.body), len(p) + 2))
+                self.fail("frame does not decode to dlci . 03 . payload of the message whose turn it is (dlci %d, %d octets): differs at body octet %d" % (d, len(p), k))
+            self.in_frame = False
+        elif b == 0:
+            self.fail("unescaped zero octet inside a frame")
+        elif b == W.ESCAPE:
+            self.esc = True
+        else:
+            self.body.append(b)
+
+    def pulled(self, asked, octets):
+        for b in octets:
+            if self.error:
+                return
+            self.octet(b)
+            self.pos += 1
+        if self.error is None and len(octets) < asked and (self.in_frame or any(self.q.values())):
+            self.fail("pull stopped although %s" % ("a frame is in transmission" if self.in_frame else "messages are queued"))
 
 
 def play(ops, rx):
-    """ops: ('send', d, payload) | ('pull', k) | ('pump',) | ('noise', octets) -> script lines, reference"""
-    ref = Ref(rx)
+    """ops: ('send', d, payload) | ('pull', k) | ('pump',) | ('noise', octets) -> script lines"""
     script = []
     for op in ops:
         if op[0] == "send":
-            ref.send(op[1], op[2])
             script.append("send %d %s" % (op[1], _c.hexs(op[2])))
         elif op[0] == "pull":
-            ref.pull(op[1])
             script.append("pull %d" % op[1])
         elif op[0] == "pump":
-            ref.pull(10 ** 9)
             script.append("pump")
         else:
             script.append("feed " + _c.hexs(op[1]))
-    return script, ref
+    return script
+
+
+def follow(ops, rx, wire, counts):
+    """run the reference along the observed wire -> Ref"""
+    ref = Ref(rx)
+    pos, ci = 0, 0
+    for op in ops:
+        if op[0] == "send":
+            ref.send(op[1], op[2])
+        elif op[0] in ("pull", "pump"):
+            n = counts[ci] if ci < len(counts) else 0
+            ci += 1
+            ref.pulled(op[1] if op[0] == "pull" else 590000, wire[pos:pos + n])
+            pos += n
+    return ref
 
 
 def parse(stdout):
-    out = {"deliveries": [], "wire": None, "panic": False, "done": False, "rx_size": None}
+    out = {"deliveries": [], "wire": None, "panic": False, "done": False, "rx_size": None, "pulled": []}
     for ln in stdout.splitlines():
         p = ln.split()
         if not p:
@@ -161,6 +206,8 @@ def parse(stdout):
             out["deliveries"].append((int(p[1]), _c.unhex(p[2])))
         elif p[0] == "wire" and len(p) >= 2:
             out["wire"] = _c.unhex(p[1])
+        elif p[0] == "pulled" and len(p) >= 2:
+            out["pulled"].append(int(p[1]))
         elif p[0] == "panic":
             out["panic"] = True
         elif p[0] == "rx_size":
@@ -176,7 +223,7 @@ def short(m):
 
 def judge(S, mode, ops, h):
     rx = RX[mode]
-    script, ref = play(ops, rx)
+    script = play(ops, rx)
     r = h.run([], timeout=120, stdin="\n".join(script) + "\n")
     S.cases += 1
     inp = {"build": mode, "rx_size": rx, "script": [("%s ...(%d hex digits)" % (s[:70], len(s))) if len(s) > 90 else s for s in script][:40]}
@@ -189,12 +236,14 @@ def judge(S, mode, ops, h):
         S.fail("memory error / panic", inp, r.get("sanitizer") or ("osmo_panic() called" if obs["panic"] else "exit status %s %s" % (r.get("rc"), (r.get("stderr") or "")[-200:])),
                "runs to completion without a sanitizer report")
         return
-    if obs["wire"] != ref.wire:
-        a, b = obs["wire"] or [], ref.wire
-        k = next((i for i in range(min(len(a), len(b))) if a[i] != b[i]), min(len(a), len(b)))
-        S.fail("octets pulled differ from the framing / queueing discipline", dict(inp, first_difference_at_octet=k),
-               {"wire_len": len(a), "around": _c.hexs(a[max(0, k - 6):k + 6])}, {"wire_len": len(b), "around": _c.hexs(b[max(0, k - 6):k + 6])})
+    wire = obs["wire"] or []
+    ref = follow(ops, rx, wire, obs["pulled"])
+    if ref.error:
+        k, what = ref.error
+        S.fail("octets pulled violate the wire grammar / queueing discipline", dict(inp, at_wire_octet=k), {"what": what, "wire_len": len(wire), "around": _c.hexs(wire[max(0, k - 8):k + 8])},
+               "frames 7E body 7E; no unescaped 7E / 00 in a body; body decodes to dlci . 03 . payload; lowest DLCI first, FIFO per DLCI")
         return
+    ref.cur = ref.in_frame
     # deliveries: messages shorter than the buffer must arrive, in wire order; an over-long frame costs itself and at most the next frame
     must, optional = [], []
     skip_next = False
